@@ -58,7 +58,7 @@ pub open spec fn key_cmp(a: &Node, b: &Node) -> Ordering {
     ensures r == key_cmp(self, other),
 //@end
 
-//@skeleton solution/src/tour.rs Tour::position_of : closure binary_search_by#0 = bbc4f6c097f685aa
+//@skeleton solution/src/tour.rs Tour::position_of : closure binary_search_by#0 = 3cef10da5e16136c
 //@frag solution/src/tour.rs Tour::position_of : closure binary_search_by#0 as frag_position_of_cmp
 //@params &self, node: NodeIdx, other: &NodeIdx
 //@ret (r: Ordering)
